@@ -387,7 +387,7 @@ theorem descNZ_perm_filter (data : List Nat) (m : Nat) (hm : m ≤ data.length) 
           List.length_cons]
         generalize data.getD m 0 = x at hd
         have : List.filter (fun x => decide (x ≠ 0)) [x] = [x] := by
-          simp [List.filter_cons, hd]
+          simp [hd]
         rw [this]; rfl
       · have := ih2 cl
         simp only [roundWeight, descNZ, hd, ↓reduceIte, List.map_cons, List.sum_cons] at this ⊢
